@@ -175,28 +175,30 @@ Definition clash_free (decl : list inst) (ifs : list iflow) : bool :=
 
 (* ------------------------------------------------------------- correspondence entry *)
 
-Definition pref_enc := (Z * option Z * Z)%type.     (* node key, flow named, processor key *)
-Definition mention_enc := (Z * pref_enc)%type.
+(* encodings with constructors of their own (case files elaborate much faster
+   than with nested tuples); flow ids start at 1, 0 = "names no flow" *)
+Inductive mention_enc := Mn (cur key by_ name : Z).
+Inductive refs_enc := RF (fl : Z) (rq rs : list mention_enc).
+Inductive irow := IR (owner name : Z) (isreq : bool) (c : Z) (early : bool).
 
-Definition dec_pref (e : pref_enc) : pref :=
-  let '(k, by_, n) := e in {| r_key := k; r_by := by_; r_name := n |}.
-Definition dec_mention (e : mention_enc) : mention := (fst e, dec_pref (snd e)).
+Definition dec_mention (e : mention_enc) : mention :=
+  let '(Mn cur k b n) := e in
+  (cur, {| r_key := k; r_by := if b =? 0 then None else Some b; r_name := n |}).
 
-Definition dec_iflows (fl : list (Z * dgraph_enc * dgraph_enc))
-           (rf : list (Z * list mention_enc * list mention_enc)) : list iflow :=
+Definition dec_iflows (fl : list (Z * dgraph_enc * dgraph_enc)) (rf : list refs_enc) : list iflow :=
   map (fun e =>
          let f := dec_flow e in
-         match find (fun x => fst (fst x) =? fname f) rf with
-         | Some (_, rq, rs) => {| i_flow := f; i_req := map dec_mention rq; i_res := map dec_mention rs |}
+         match find (fun x => let '(RF n _ _) := x in n =? fname f) rf with
+         | Some (RF _ rq rs) => {| i_flow := f; i_req := map dec_mention rq; i_res := map dec_mention rs |}
          | None => {| i_flow := f; i_req := []; i_res := [] |}
          end) fl.
 
 (* rows: declaring flow, key, is-request, output condition, answers-itself *)
-Definition dec_ioracle (rows : list (Z * Z * bool * Z * bool)) : ibeh :=
+Definition dec_ioracle (rows : list irow) : ibeh :=
   fun i d =>
-    match find (fun r => let '(o, n, q, _, _) := r in
+    match find (fun r => let '(IR o n q _ _) := r in
                          (o =? fst i) && (n =? snd i) && eqb q (is_req d)) rows with
-    | Some (_, _, _, c, e) => (c, if e then Early else Plain)
+    | Some (IR _ _ _ c e) => (c, if e then Early else Plain)
     | None => (0, Plain)
     end.
 
@@ -230,21 +232,21 @@ Definition mark_of (ms : list (Z * node_map * node_map)) (ib : ibeh) (e : event)
   | None => None
   end.
 
-Definition oinst_eqb (a b : option inst) : bool :=
-  match a, b with
-  | Some x, Some y => inst_eqb x y
-  | None, None => true
-  | _, _ => false
+(* observed: (0, 0) = the event's processor appended no early response *)
+Definition mark_eqb (a : option inst) (b : Z * Z) : bool :=
+  match a with
+  | Some x => inst_eqb x b
+  | None => inst_eqb (0, 0) b
   end.
 
 Definition mevent := (Z * Z * bool * Z * option (Z * Z))%type.
 
-Fixpoint eq_mevents (a : list mevent) (b : list (Z * Z * bool * Z)) (mk : list (option (Z * Z)))
+Fixpoint eq_mevents (a : list mevent) (b : list (Z * Z * bool * Z)) (mk : list (Z * Z))
   : bool :=
   match a, b, mk with
   | [], [], [] => true
   | (f, k, q, c, m) :: a', (f', k', q', c') :: b', m' :: mk' =>
-      (f =? f') && (k =? k') && eqb q q' && (c =? c') && oinst_eqb m m' && eq_mevents a' b' mk'
+      (f =? f') && (k =? k') && eqb q q' && (c =? c') && mark_eqb m m' && eq_mevents a' b' mk'
   | _, _, _ => false
   end.
 
@@ -252,17 +254,17 @@ Fixpoint eq_mevents (a : list mevent) (b : list (Z * Z * bool * Z)) (mk : list (
     request, observed (events, result code), quota groups,
     per flow the references of its request / response connections in reading order,
     declared instances, instance oracle rows,
-    per observed event the instance its early response names) *)
+    per observed event the instance its early response names, (0, 0) = none) *)
 Definition case_i :=
   (list (Z * dgraph_enc * dgraph_enc)
    * (sel_enc * option sel_enc)
    * bool
    * (list (Z * Z * bool * Z) * Z)
    * list qgroup
-   * list (Z * list mention_enc * list mention_enc)
+   * list refs_enc
    * list (Z * Z)
-   * list (Z * Z * bool * Z * bool)
-   * list (option (Z * Z)))%type.
+   * list irow
+   * list (Z * Z))%type.
 
 (* None = the model - node -> instance resolved by the NAMED flow, every node
    outputting what its instance outputs - agrees with the implementation's
